@@ -288,7 +288,7 @@ for _pid, _old, _new in AMEND:
 APPEND = {
     "C01": "Records also as int64 / int32 / int16 / int8 / uint8 counts and float32, through all three entry points.",
     "C03": "Narrow-integer count records containing the type's most negative count on both sides of 6 dt (PgaBelow6dt).",
-    "C04": "Value sessions: every baseline correction, filter and detrending step also carries the record left by the same call on a freshly constructed object (clause Havoc_<op>_history: what an operation does may not depend on earlier reads), incl. timezone forms.",
+    "C04": "Cluster sessions (Trace_ClusterObj): reads of the components' derived quantities after the cluster replaced their values (time_match, same_start, combine_motions, component changes). Value sessions: every baseline correction, filter and detrending step also carries the record left by the same call on a freshly constructed object (clause Havoc_<op>_history: what an operation does may not depend on earlier reads), incl. timezone forms.",
     "C05": "Ownership model also has the caller writing into a returned time axis and the windowed (timezone) residual correction; the observable digest covers about 160 entries incl. results changed in place.",
     "C06": "Dominant period also for records in extreme units (2^-560 .. 2^520: squares leave the double range, the spec's modulus is hypot).",
     "C07": "Spectra on the caller's own axes (octave bands, log-spaced with ratio > 2, irregular, no zero bin) and whole-number targets held in integer types, array level and setter.",
@@ -302,7 +302,7 @@ APPEND = {
     "C15": "Dominant-frequency trace also in extreme units (2^-560, 2^515).",
     "C16": "Empty and blanks-only labels, padded and non-ASCII labels, multipliers 0.01 .. 9.81 and negative.",
     "C17": "Adders on full-range int8 / uint8 / int16 / uint16 / int32 records with whole-number constants, count series and count signals (AddElementwise); integer record = float record for the filter; 20001-sample degree-4 detrend.",
-    "C18": "master_index reassigned after construction; records on levels up to 1e8 (level / change up to 1e9); narrow-integer clusters; windows of all four kinds inside the record.",
+    "C18": "The cluster object as a state machine (ClusterObj.tla): MC_ClusterObj generates every interleaving of set_master / time_match / same_start / component add_constant / component replacement (two operations deep from 3 / 14 exact clusters, k = 2..4) with the model properties AlignedAfterSameStart, AlignKeepsMaster, LagIsMinimiser, SameStartIdempotent, and every transition is executed on a real Cluster built in that state (successor must be one of the model's); 40 / 400 -simulate behaviours of 9 / 14 operations replayed on one object each; 14 / 90 sessions on real float clusters validated by Trace_ClusterObj, which carries the model state from event to event. master_index reassigned after construction; records on levels up to 1e8 (level / change up to 1e9); narrow-integer clusters; windows of all four kinds inside the record.",
     "C19": "get_time_shift_motions of every energy event against the acceleration series of the definition (ShiftedWaveDefinition); start=True rows must be the start=False rows delayed by a whole number of samples within one of (stt - tt)/dt; records as int8 / int16 / int32 / uint8 / float32 with whole-number reduction factors as python / numpy integers.",
     "C20": "Tables of whole numbers as uint8 / int8 / uint16 / int16 / uint32 / int64; integer nodes with negative fractional queries; first / last sample as split.",
 }
@@ -310,6 +310,14 @@ for _pid, _extra in APPEND.items():
     CHECKS[_pid]["text"] = CHECKS[_pid]["text"].rstrip() + " " + _extra
 
 NOT_YET = {}
+
+# specification modules beyond the one named as a check's engine (object models that serve several properties)
+EXTRA_ENGINES = {
+    "SignalObj": ["C04"],
+    "Ownership": ["C05"],
+    "ClusterObj": ["C04", "C18"],
+    "Spectra": ["C03"],
+}
 
 
 def main():
@@ -335,6 +343,10 @@ def main():
             "technique": c["technique"],
         })
         engines.setdefault(c["engine"], []).append(pid)
+    for k, v in EXTRA_ENGINES.items():
+        for pid in v:
+            if pid not in engines.setdefault(k, []):
+                engines[k].append(pid)
     man = {
         "version": 1,
         "setup_cmd": "./setup.sh",
